@@ -396,7 +396,22 @@ func (c *core) fastForward(block *hg.Block, frame *hg.Frame) error {
 
 	// Update peer-selector and validators
 	c.setPeers(peers.NewPeerSet(frame.Peers))
-	c.validators = peers.NewPeerSet(frame.Peers)
+
+	// validators must reflect the latest recorded validator-set, which is the
+	// one that future membership changes build upon. frame.Peers is the set in
+	// force at the Frame's round; changes accepted in earlier blocks but not
+	// yet effective at that round are only present in frame.PeerSets.
+	latestRound := -1
+	for r := range frame.PeerSets {
+		if r > latestRound {
+			latestRound = r
+		}
+	}
+	if latestRound >= 0 {
+		c.validators = peers.NewPeerSet(frame.PeerSets[latestRound])
+	} else {
+		c.validators = peers.NewPeerSet(frame.Peers)
+	}
 
 	return nil
 }
